@@ -215,15 +215,39 @@ static void run_op(ChWorld &w, const Op &op)
 	    if (op.I(11) == 1 && !w.handles.empty()) { h1 = w.handles.back(); h1ok = live_handle(w, h1); }	// the parameter made last
 	    int smat[4] = {h1, VNACAL_ZERO, VNACAL_ZERO, h2};
 	    int pmap[2] = {(int)p1, (int)p2};
+	    // pointer / shape class: 0-5 as above, 6 NULL measurement matrix, 7 NULL reference matrix (a/b forms),
+	    // 8 mapped matrix with its own S dimensions and port map, 9 the same without port map
+	    int pcls = (int)((op.I(12) % 10 + 10) % 10);
+	    bool sok_r = true, sok_c = true;
+	    long sr = 2, scn = 2;
+	    if (pcls >= 8 && kind == 4) { sr = pick(op.I(13), 3, sok_r, 1); scn = pick(op.I(14), 3, sok_c, 1); if (sr > 8) sr = 8; if (scn > 8) scn = 8; }
+	    long scells = std::max<long>(sr, 0) * std::max<long>(scn, 0), sports = std::max(std::max<long>(sr, scn), 0L);
+	    Exact<int> smx(scells), pmx(sports);	// exactly as many cells / ports as the stated dimensions need
+	    for (long q = 0; q < smx.n; ++q) smx[q] = q == 0 ? h1 : q == smx.n - 1 ? h2 : (q % (std::max<long>(scn, 1) + 1) == 0 ? VNACAL_MATCH : VNACAL_ZERO);
+	    for (long q = 0; q < pmx.n; ++q) pmx[q] = q == 0 ? (int)p1 : q == 1 ? (int)p2 : (int)((p1 + p2 + q) % std::max(P, 1) + 1);
+	    bool own_s = pcls >= 8 && kind == 4;
+	    const int *smat_p = own_s ? smx.p : smat, *pmap_p = own_s ? (pcls == 9 ? nullptr : pmx.p) : pmap;
+	    int s_r = own_s ? (int)sr : 2, s_c = own_s ? (int)scn : 2;
+	    cplx *const *bpp = pcls == 6 ? nullptr : bp.data();
+	    cplx *const *app = pcls == 7 ? nullptr : ap.data();
+	    if (pcls >= 6) c.count(strf("probe.add_pointer_class_%d", pcls));
 	    int rc = 0;
 	    const char *fn = "vnacal_new_add_*";
 	    c.log(" add kind=%d %s type=%d cal=%dx%d meas=%dx%d a=%dx%d ports=%ld,%ld", kind, ab ? "ab" : "m", s.type, s.R, s.C, br, bc, ar, ac, p1, p2);
 	    CH_CALL(fn, rc != 0,
-		if (kind == 0) rc = ab ? vnacal_new_add_single_reflect(s.vnp, ap.data(), ar, ac, bp.data(), br, bc, h1, (int)p1) : vnacal_new_add_single_reflect_m(s.vnp, bp.data(), br, bc, h1, (int)p1);
-		else if (kind == 1) rc = ab ? vnacal_new_add_double_reflect(s.vnp, ap.data(), ar, ac, bp.data(), br, bc, h1, h2, (int)p1, (int)p2) : vnacal_new_add_double_reflect_m(s.vnp, bp.data(), br, bc, h1, h2, (int)p1, (int)p2);
-		else if (kind == 2) rc = ab ? vnacal_new_add_through(s.vnp, ap.data(), ar, ac, bp.data(), br, bc, (int)p1, (int)p2) : vnacal_new_add_through_m(s.vnp, bp.data(), br, bc, (int)p1, (int)p2);
-		else if (kind == 3) rc = ab ? vnacal_new_add_line(s.vnp, ap.data(), ar, ac, bp.data(), br, bc, smat, (int)p1, (int)p2) : vnacal_new_add_line_m(s.vnp, bp.data(), br, bc, smat, (int)p1, (int)p2);
-		else rc = ab ? vnacal_new_add_mapped_matrix(s.vnp, ap.data(), ar, ac, bp.data(), br, bc, smat, 2, 2, pmap) : vnacal_new_add_mapped_matrix_m(s.vnp, bp.data(), br, bc, smat, 2, 2, pmap));
+		if (kind == 0) rc = ab ? vnacal_new_add_single_reflect(s.vnp, app, ar, ac, bpp, br, bc, h1, (int)p1) : vnacal_new_add_single_reflect_m(s.vnp, bpp, br, bc, h1, (int)p1);
+		else if (kind == 1) rc = ab ? vnacal_new_add_double_reflect(s.vnp, app, ar, ac, bpp, br, bc, h1, h2, (int)p1, (int)p2) : vnacal_new_add_double_reflect_m(s.vnp, bpp, br, bc, h1, h2, (int)p1, (int)p2);
+		else if (kind == 2) rc = ab ? vnacal_new_add_through(s.vnp, app, ar, ac, bpp, br, bc, (int)p1, (int)p2) : vnacal_new_add_through_m(s.vnp, bpp, br, bc, (int)p1, (int)p2);
+		else if (kind == 3) rc = ab ? vnacal_new_add_line(s.vnp, app, ar, ac, bpp, br, bc, smat, (int)p1, (int)p2) : vnacal_new_add_line_m(s.vnp, bpp, br, bc, smat, (int)p1, (int)p2);
+		else rc = ab ? vnacal_new_add_mapped_matrix(s.vnp, app, ar, ac, bpp, br, bc, smat_p, s_r, s_c, pmap_p) : vnacal_new_add_mapped_matrix_m(s.vnp, bpp, br, bc, smat_p, s_r, s_c, pmap_p));
+	    if (pcls == 6) { MUST_FAIL(true, fn, std::string("a NULL measurement matrix")); return; }
+	    if (own_s) {
+		// judged only where the manual leaves no doubt: S dimensions outside 1..ports, or no port map for an S matrix smaller than the calibration
+		bool sbad = sr < 1 || scn < 1 || sr > P || scn > P || (pcls == 9 && (sr != P || scn != P));
+		MUST_FAIL(sbad, fn, strf("a %ld x %ld S matrix %s port map on a %d-port calibration", sr, scn, pcls == 9 ? "without" : "with", P));
+		if (rc == 0) c.count("probe.standard_added");
+		return;
+	    }
 	    bool two = kind != 0;
 	    bool bad = !p1ok || (two && !p2ok) || (two && p1 == p2) || br < 1 || bc < 1 || br > s.R || bc > s.C ||
 		((kind == 0 || kind == 1 || kind == 3 || kind == 4) && !known_handle(w, h1)) || ((kind == 1 || kind == 3 || kind == 4) && !known_handle(w, h2));
@@ -248,6 +272,18 @@ static void run_op(ChWorld &w, const Op &op)
 	if (k == "addcal") {
 	    const char *name = NAMES[(size_t)(op.I(1) % 10 + 10) % 10];
 	    int ci;
+	    if (op.I(2) % 10 == 9) {
+		// a vnacal_new_t that belongs to another vnacal_t
+		vnacal_t *other = nullptr; vnacal_new_t *ovnp = nullptr;
+		{ LibCall lc(c); other = vnacal_create(w.cb ? sim_error_fn : nullptr, nullptr); if (other) ovnp = vnacal_new_alloc(other, VNACAL_T8, 1, 1, 1); lc.done(); }
+		if (ovnp) {
+		    CH_CALL("vnacal_add_calibration", ci < 0, ci = vnacal_add_calibration(w.vcp, name, ovnp));
+		    MUST_FAIL(true, "vnacal_add_calibration", std::string("a vnacal_new_t of another vnacal_t"));
+		    c.count("probe.addcal_foreign_session_refused");
+		}
+		{ LibCall lc(c); if (other) vnacal_free(other); lc.done(); }
+		return;
+	    }
 	    CH_CALL("vnacal_add_calibration", ci < 0, ci = vnacal_add_calibration(w.vcp, name, s.vnp));
 	    MUST_FAIL(!s.solved, "vnacal_add_calibration", std::string("a vnacal_new_t that was not solved"));
 	    if (ci >= 0) { c.count("probe.calibration_added"); c.nontrivial = true; s.solved = false; }	// the solved calibration moved into the vnacal_t
@@ -355,7 +391,15 @@ static void run_op(ChWorld &w, const Op &op)
 	for (int i = 0; i < std::max(ar, 1); ++i) for (int j = 0; j < std::max(ac, 1); ++j) ap[(size_t)i * (size_t)std::max(ac, 1) + j] = &a.at(i, j, 0);
 	vnadata_t *out = w.vd[(size_t)(op.I(6) % ND + ND) % ND];
 	int rc;
-	CH_CALL("vnacal_apply", rc != 0, rc = ab ? vnacal_apply(w.vcp, (int)ci, fv.p, (int)n, ap.data(), ar, ac, bp.data(), br, bc, out) : vnacal_apply_m(w.vcp, (int)ci, fv.p, (int)n, bp.data(), br, bc, out));
+	// pointer class: 6 NULL frequency vector, 7 NULL measurement matrix, 8 a NULL cell pointer in it, 9 NULL result object
+	int pcls = (int)((op.I(8) % 10 + 10) % 10);
+	if (pcls == 8 && !bp.empty()) bp[(size_t)((op.I(8) / 10) % (long)bp.size())] = nullptr;
+	const double *fvp = pcls == 6 ? nullptr : fv.p;
+	cplx *const *bpp = pcls == 7 ? nullptr : bp.data();
+	if (pcls == 9) out = nullptr;
+	if (pcls >= 6) c.count(strf("probe.apply_pointer_class_%d", pcls));
+	CH_CALL("vnacal_apply", rc != 0, rc = ab ? vnacal_apply(w.vcp, (int)ci, fvp, (int)n, ap.data(), ar, ac, bpp, br, bc, out) : vnacal_apply_m(w.vcp, (int)ci, fvp, (int)n, bpp, br, bc, out));
+	if (pcls >= 6) { MUST_FAIL(pcls != 8 || (br >= 1 && bc >= 1), "vnacal_apply", strf("a NULL pointer (class %d)", pcls)); return; }
 	bool bad = !ok || !exists || n < 0 || (n > 0 && F > 0 && (fmode == 3 || fmode == 4)) || (n > 1 && fmode == 5 && hi > lo);
 	MUST_FAIL(bad, "vnacal_apply", strf("index %ld (%s), %ld frequencies in mode %d", ci, ok && exists ? "live" : "invalid", n, fmode));
 	if (rc == 0) c.count("probe.applied");
@@ -522,15 +566,16 @@ Plan chaos_gen(const std::string &check, const std::string &tier, uint64_t seed,
 	else if (u < 0.17) plan.ops.push_back(mk("setfv", {slot, rng.chance(p_bad) ? rng.range(3, 5) : rng.below(3)}));
 	else if (u < 0.22) plan.ops.push_back(mk("merror", {slot, code(), rng.below(7), code(), code(), rng.below(6)}));
 	else if (u < 0.27) plan.ops.push_back(mk("knob", {slot, rng.below(5), code(), code()}));
-	else if (u < 0.45) plan.ops.push_back(mk("add", {slot, rng.below(5), rng.below(2), code(), code(), code(), code(), code(), code(), code(), rng.chance(0.08) ? rng.below(100) * 10 + rng.range(8, 9) : 0}));
+	else if (u < 0.45) plan.ops.push_back(mk("add", {slot, rng.below(5), rng.below(2), code(), code(), code(), code(), code(), code(), code(), rng.chance(0.08) ? rng.below(100) * 10 + rng.range(8, 9) : 0, 0,
+		rng.chance(0.12) ? rng.range(6, 9) : 0, code(), code()}));
 	else if (u < 0.52) plan.ops.push_back(mk("solve", {slot}));
-	else if (u < 0.57) plan.ops.push_back(mk("addcal", {slot, rng.below(10)}));
+	else if (u < 0.57) plan.ops.push_back(mk("addcal", {slot, rng.below(10), rng.chance(0.06) ? 9 : 0}));
 	else if (u < 0.65) plan.ops.push_back(mk("mkparam", {rng.below(4), code(), code(), rng.below(7), code(), rng.below(2)}));
 	else if (u < 0.69) plan.ops.push_back(mk("delparam", {code()}));
 	else if (u < 0.73) plan.ops.push_back(mk("getpv", {code(), code()}));
 	else if (u < 0.78) plan.ops.push_back(mk("ciq", {code(), rng.below(10)}));
 	else if (u < 0.81) plan.ops.push_back(mk("delcal", {code()}));
-	else if (u < 0.87) plan.ops.push_back(mk("apply", {code(), code(), code(), code(), rng.below(2), rng.chance(p_bad) ? rng.range(3, 5) : rng.below(3), rng.below(2), rng.chance(0.15) ? rng.below(100) * 10 + rng.range(8, 9) : 0}));
+	else if (u < 0.87) plan.ops.push_back(mk("apply", {code(), code(), code(), code(), rng.below(2), rng.chance(p_bad) ? rng.range(3, 5) : rng.below(3), rng.below(2), rng.chance(0.15) ? rng.below(100) * 10 + rng.range(8, 9) : 0, rng.chance(0.08) ? rng.below(50) * 10 + rng.range(6, 9) : 0}));
 	else if (u < 0.92) plan.ops.push_back(mk("prop", {rng.below(3) + 3 * code(), rng.below(NDESC), rng.below(8)}));
 	else if (u < 0.93) plan.ops.push_back(mk("prec", {code(), code()}));
 	else if (u < 0.95) plan.ops.push_back(mk("save", {}));
